@@ -516,9 +516,11 @@ func c20Kinds(run *ev.Run) {
 				map[string]any{"params": params, "failed": got, "callbacks": cbs}, nil)
 		}
 	}
-	vals := []string{"", "a", "ab", "abc"}
-	for min := 0; min <= 2; min++ {
-		for max := 0; max <= 2; max++ {
+	// the length of a Go string is its number of bytes (language specification); values of every byte length 0..8 made of
+	// 1-, 2-, 3- and 4-byte characters, combining marks and bytes that are not UTF-8 at all, against every bound pair 0..9
+	vals := []string{"", "a", "ab", "abc", "abcdefgh", "\u00e4", "\u00e4\u00f6", "\u00e4\u00f6\u00fc\u00df", "\u20ac", "\u20ac\u20ac", "\U0001F600", "\U0001F600\U0001F600", "e\u0301", "a\u00e4", "\xff", "\xff\xfe\xfd", "\xc3", "a\x00", "\x00\x00\x00", " \t\r\n"}
+	for min := 0; min <= 9; min++ {
+		for max := 0; max <= 9; max++ {
 			for _, v := range vals {
 				v := v
 				want := (min > 0 && len(v) < min) || (max > 0 && len(v) > max)
@@ -528,7 +530,8 @@ func c20Kinds(run *ev.Run) {
 			}
 		}
 	}
-	eq := []string{"", "a", "b", "a "}
+	// equality is identity of the byte strings: no trimming, case folding, Unicode normalisation or NUL truncation
+	eq := []string{"", "a", "b", "a ", " a", "A", "a\x00", "\u00e9", "e\u0301", "\u00c9", "a\n", "\xff", "\ufffd"}
 	for _, a := range eq {
 		for _, b := range eq {
 			a, b := a, b
@@ -537,7 +540,7 @@ func c20Kinds(run *ev.Run) {
 			}, a != b)
 		}
 	}
-	for _, v := range []string{"", " ", "a", "\x00"} {
+	for _, v := range []string{"", " ", "a", "\x00", "\t", "\n", "\u00a0", "\ufeff", "\xff", "0", "false"} {
 		v := v
 		one("WithValueNotEmptyCheck", fmt.Sprintf("%q", v), func(c *checker.Checker, cb func()) {
 			c.WithValueNotEmptyCheck("v", func() string { return v }, cb)
